@@ -21,8 +21,8 @@ Definition rx_q1_pre : tnear :=
 Lemma c520ee9_regression :
   option_map (fun t => List.length (rows t)) (sem_gen fl_sqlite rx_p1 rx_env) = Some 1%nat /\
   option_map (fun t => List.length (rows t)) (nsem fl_sqlite rx_q1_pre rx_env) = Some 3%nat /\
-  (exists q n, to_near d_sqlite rx_p1 None 0 = Ok (q, n) /\ nsem fl_sqlite q rx_env = sem_gen fl_sqlite rx_p1 rx_env).
-Proof. split; [vm_compute; reflexivity|]. split; [vm_compute; reflexivity|]. eexists. eexists. split; vm_compute; reflexivity. Qed.
+  match to_near d_sqlite rx_p1 None 0 with Ok (q, _) => nsem fl_sqlite q rx_env = sem_gen fl_sqlite rx_p1 rx_env | _ => False end.
+Proof. split; [vm_compute; reflexivity|]. split; vm_compute; reflexivity. Qed.
 
 (* 6f11e66.  A final t.order_rows([a]) over a stored table that has a column the description does not declare.
    Before the repair order_to_near_sql wrote no terms for a final order_rows (SELECT * ... ORDER BY): the undeclared column
@@ -33,7 +33,8 @@ Definition rx_q2_pre : tnear := order_step_pre_6f11e66 (TTable "t" (Some ["a"; "
 
 Lemma f6f11e66_regression :
   option_map cols (nsem fl_sqlite rx_q2_pre rx_env_wide) = Some ["a"; "b"; "zz"] /\
-  (exists q n, to_near d_sqlite rx_p2 None 0 = Ok (q, n) /\
-               option_map cols (nsem fl_sqlite q rx_env_wide) = Some (column_names rx_p2) /\
-               nsem fl_sqlite q rx_env = sem_gen fl_sqlite rx_p2 rx_env).
-Proof. split; [vm_compute; reflexivity|]. eexists. eexists. split; [vm_compute; reflexivity|]. split; vm_compute; reflexivity. Qed.
+  match to_near d_sqlite rx_p2 None 0 with
+  | Ok (q, _) => option_map cols (nsem fl_sqlite q rx_env_wide) = Some (column_names rx_p2) /\
+                 nsem fl_sqlite q rx_env = sem_gen fl_sqlite rx_p2 rx_env
+  | _ => False end.
+Proof. split; [vm_compute; reflexivity|]. vm_compute. split; reflexivity. Qed.
